@@ -5,11 +5,17 @@
      4 <config> <str k>  -> option str     def_of cfg (Some k)  (the definition a name stands for)
      5 <str k>           -> [b]            key_text k
      6 <config> <str d>  -> [b]            self_free cfg d      (the hypothesis of C14_alias_eq_definition)
+     7 <config> <str a>  -> res (preorder) the abbreviation a parsed and RESOLVED, before the transform pass:
+                                           what the theorems about walk_resolve speak about (nodes as in run.AttrRun)
    The configuration is decoded by run.MarkupRun.dec_config (same wire format as the markup model). *)
 From Emmet Require Import lib.Base lib.Wire model.MarkupTokenizer model.MarkupParser model.MarkupConvert
-     model.MarkupResolve model.OutStream model.FormatHtml model.FormatIndent model.MarkupExpand run.MarkupRun
+     model.MarkupResolve model.OutStream model.FormatHtml model.FormatIndent model.MarkupExpand run.MarkupRun run.AttrRun
      proofs.SnippetAcyclic proofs.SnippetAliasParse.
 Local Open Scope Z_scope.
+
+Definition resolved_of (cfg : mconfig) (a : str) : res (list anode) :=
+  let* tree := parse_abbr (mc_jsx cfg) (outer_env cfg) (mc_max_repeat cfg) a in
+  walk_resolve (full_fuel cfg) cfg [] tree.
 
 Definition run (w : wire) : wire :=
   match w with
@@ -45,6 +51,14 @@ Definition run (w : wire) : wire :=
   | 6 :: w' => match dec_config w' with
                | Some (x, w2) => match dec_str w2 with
                                  | Some (s, _) => enc_bool (self_free (xc_m x) s)
+                                 | None => wire_bad
+                                 end
+               | None => wire_bad
+               end
+  | 7 :: w' => match dec_config w' with
+               | Some (x, w2) => match dec_str w2 with
+                                 | Some (s, _) =>
+                                     enc_res (fun t => enc_list enc_node (flat_map (pre_nodes 0) t)) (resolved_of (xc_m x) s)
                                  | None => wire_bad
                                  end
                | None => wire_bad
